@@ -102,6 +102,7 @@ ADDED = {
     "C03": " Also: (c) in every `shots is None` arm the weights handed on are the iterated probabilities themselves (times the parent branch's weight), not a renormalised or rescaled value.",
     "C04": " Also: no `<<` is evaluated in fewer bits than the stated multiplicity range needs with a run-time count; an in-place rescaling helper returns on every path the factor it applied on that path.",
     "C07": " Also: every closed-form block is free of config.hbar; the S_(c) matrices printed in the class docstrings equal [[P, A], [conj A, conj P]] assembled from the blocks (LaTeX fragment reader); the steps registered for gates keep the requested mode order (no sorted image, no order-insensitive shortcut).",
+    "C08": " Also: (b) every update of the mixed-Fock density matrix has a Hermiticity-preserving form (K rho K^dagger with the same K on both sides, an elementwise factor exp(i(g(ket) - g(bra))), an explicit conjugate-transpose mirror fill) and the attenuator's weights are symmetric under ket <-> bra.",
     "C09": " Also: (d) the NumPy/numba and the JAX implementation of the Gaussian density-matrix recurrence have the same normal form (pivot, initial term, loop summands, divisor).",
     "C11": " Also: the seed of every privately constructed generator is traced to a read of the seed_sequence property; no object shared by the shots of a dask region (bound by partial, free variable of the per-shot closure) is written in place by the per-shot callable; the jobs of the native permanent tile the Gray-code range exactly for every job count (S(0)=0, E(K-1)=M-1, S(j+1)=E(j)+1, proved by case split over the comparisons).",
     "C13": " Also: the preparation-order validator may only test isinstance(., Preparation) (closed world).",
